@@ -352,6 +352,11 @@ func (m *QuestionModel) verifyChoiceMatch(answer Answer) error {
 	correctByIndex := answer.correctAnswerIndices()
 	generated := m.Question.RenderOutput()
 	outputs := generateAnserOutputs(m.AnswerChoices)
+	for i, marked := range correctByIndex {
+		if marked && (i < 0 || i >= len(outputs)) {
+			return fmt.Errorf("%w (%s): expected %q: there are only %d answer choices", ErrWrongAnswer, m.Filename(), answer.correctAnswers(), len(outputs))
+		}
+	}
 	for i, output := range outputs {
 		if correctByIndex[i] && generated != output {
 			return fmt.Errorf("%w (%s): answer %q does not match question: %q != %q", ErrWrongAnswer, m.Filename(), indexToLetter(i), strings.TrimSuffix(output, "\n"), strings.TrimSuffix(generated, "\n"))
